@@ -12,3 +12,4 @@ open Emboss.View
 #print axioms C01_ok_monotone_arrays_partial
 #print axioms C01_complete_fields_identical_partial
 #print axioms C01_sizeCovers_of_plain
+#print axioms C01_ok_switch_eq_naive
